@@ -32,9 +32,11 @@ def res_of(f):
         return {'ok': False, 'grid': [], 'exc': type(ex).__name__}
 
 
-def sess_transpose(seed, core=True, ncalls=12):
+def sess_transpose(seed, core=True, ncalls=12, rows=12):
     import kernpy as kp
-    over = dict(max_rows=12, types=['**kern', '**text', '**dynam', '**harm', '**fing'] + ([] if core else ['**root']))
+    over = dict(max_rows=rows, types=['**kern', '**text', '**dynam', '**harm', '**fing'] + ([] if core else ['**root']))
+    if rows > 100:                               # a LONG score (several hundred lines): what a copy of the tree costs depends on its depth
+        over.update(min_rows=rows - 30, max_spines=2, early_term=False)
     if core:
         over.update(chords='none', accdisp=False)
     r, lines, types = dp.make_doc(seed, 'main', **over)
@@ -108,6 +110,12 @@ def main():
         sess = docs.build_sessions(sess_transpose, [a.seed * 1000003 + i for i in range(n)], core=True)
         nx = 40 if quick else 500
         sess += docs.build_sessions(sess_transpose, [a.seed * 1000003 + 300000000 + i for i in range(nx)], core=False)
+        nl = 2 if quick else 16
+        long_ = docs.build_sessions(sess_transpose, [a.seed * 1000003 + 600000000 + i for i in range(nl)], core=True, ncalls=2, rows=320)
+        for s in long_:
+            s['tags'] = list(s['tags']) + ['long-score']
+        sess += long_
+        run.note('long_scores', nl)
     docs.validate_sessions(run, sess, symptom_of=symptom_of, relevant=docs.relevant_for(run.pid))
     ivs = set()
     for s in sess:
